@@ -358,19 +358,49 @@ Definition mux_ok_auto (s : sched) (m : mux) : bool :=
      end
   && forallb (inst_mux_ok (s_mag s) (s_pn s)) (combine (s_insts s) (mx_insts m)).
 
-(* the delivered list: PES packets (time, data identifier, data units) whose units in order are the events *)
-Definition pes := (Z * N * list (N * str))%type.
+(* the delivered list.  What the demuxer hands over for one PES packet of the teletext PID is one of:
+   - PUnits t ident us trail: an EBU teletext payload (data identifier 0x10..0x1f) with presentation time t carrying the
+     complete data units us, possibly followed by a truncated last unit (trail: fewer than two bytes, or a length byte
+     that runs past the end of the payload);
+   - PNoTime payload: a PES packet for which no time can be computed (the zero time): dropped altogether, it does not
+     even move the first/last presentation time;
+   - PInert t payload: an empty payload, or one whose data identifier is outside 0x10..0x1f: nothing of it is read, but
+     its time takes part in the first and last presentation time, as in the code.
+   The units of the PUnits packets, in order, are the events of the schedule and multiplexing. *)
+Inductive pes :=
+| PUnits (t : Z) (ident : N) (us : list (N * str)) (trail : str)
+| PNoTime (payload : str)
+| PInert (t : Z) (payload : str).
 Definition enc_pes (p : pes) : option Z * str :=
-  let '(t, ident, us) := p in (Some t, ident :: concat (map enc_unit us)).
-Definition pes_units (p : pes) : list tunit := let '(t, _, us) := p in map (fun u => (t, u)) us.
-Definition pes_ok (p : pes) : bool := let '(_, ident, _) := p in (16 <=? ident) && (ident <=? 31).
+  match p with
+  | PUnits t ident us trail => (Some t, ident :: concat (map enc_unit us) ++ trail)
+  | PNoTime payload => (None, payload)
+  | PInert t payload => (Some t, payload)
+  end.
+Definition pes_units (p : pes) : list tunit :=
+  match p with PUnits t _ us _ => map (fun u => (t, u)) us | _ => [] end.
+Definition trail_ok (g : str) : bool :=
+  match g with _ :: len :: rest => Nat.ltb (length rest) (N.to_nat len) | _ => true end.
+Definition pes_ok (p : pes) : bool :=
+  match p with
+  | PUnits _ ident _ trail => (16 <=? ident) && (ident <=? 31) && trail_ok trail
+  | PNoTime _ => true
+  | PInert _ payload => match payload with [] => true | ident :: _ => negb ((16 <=? ident) && (ident <=? 31)) end
+  end.
+Definition pes_time (p : pes) : option Z :=
+  match p with PUnits t _ _ _ => Some t | PNoTime _ => None | PInert t _ => Some t end.
+(* first / last presentation time: minimum / maximum over the packets that have a time *)
 Fixpoint tmin (l : list pes) (acc : option Z) : option Z :=
   match l with
   | [] => acc
-  | (t, _, _) :: r => tmin r (Some (match acc with Some x => if (t <? x)%Z then t else x | None => t end))
+  | p :: r => tmin r (match pes_time p with
+                      | Some t => Some (match acc with Some x => if (t <? x)%Z then t else x | None => t end)
+                      | None => acc end)
   end.
 Fixpoint tmax (l : list pes) (acc : option Z) : option Z :=
   match l with
   | [] => acc
-  | (t, _, _) :: r => tmax r (Some (match acc with Some x => if (x <? t)%Z then t else x | None => t end))
+  | p :: r => tmax r (match pes_time p with
+                      | Some t => Some (match acc with Some x => if (x <? t)%Z then t else x | None => t end)
+                      | None => acc end)
   end.
